@@ -12,6 +12,7 @@ import l1_corr
 import l1_stream
 import c02_ended_check
 import c02_more_check
+import c02_return_check
 
 LEVEL = "proof"
 MARGIN = 0.06      # two one-way delays + slack
@@ -213,6 +214,10 @@ def run(ctx):
                 "transport reuse: ONE client transport used for 20..40 connections one after the other ending by a failed handshake (unserved port, SYN lost, CONNECT lost), silence (EndOfStream leaves the block), a kick, "
                 "an application exception, cancellation - homogeneous histories longer than the port table (16 / 32) and mixed ones, UDP v0 / v1 and lite: every later session connects and echoes; "
                 "ONE server transport on which transport.serve(handler, 1, 10) is left 20+ times by an exception / cancellation (client connected, handler busy, idle): the port is served again, the orphaned client is released within the bound; "
+                "a peer that returns from the same (address, PRUDP port, type) while the server still holds the record of its previous, already ended connection whose handler lingers / is busy: "
+                "first session ended gracefully / by close() / kicked / by cancellation / by silence, new attempts before / inside / after the window over ONE long-lived client transport or a new one on the same UDP source port, "
+                "the old handler returning or raising at every moment of the new session (grid of ~50 instants from before its SYN to after its end), the new session ending gracefully / forcefully / kicked / by silence: "
+                "every call returns within its bound, the serve() block survives, a session the server accepted works until its own end, the same and another address connect afterwards, no record stays; server side replayed through L1; "
                 "distinct non-trivial = distinct (configuration, k, mode) / (configuration, scenario parameters)")
     base = dict(fragment_size=16, resend_timeout=0.5, ping_timeout=1.0)
     cfgs = []
@@ -304,6 +309,12 @@ def run(ctx):
         # stream writes that raise in the graceful-disconnect phase; one long-lived transport used for many connections that end abnormally
         # (harness/c02_closing.py, c02_reuse.py, c02_more_check.py) - judged on the real code
         c02_more_check.run_families(ctx, pool)
+        # a peer that returns from the same (address, port, type) while the record of its previous, already ended connection is still
+        # held because its handler has not returned yet (harness/c02_return.py, c02_return_check.py); server side replayed through L1
+        nd3, first3 = c02_return_check.run_families(ctx, pool, drv)
+        ndiff += nd3
+        if first is None:
+            first = first3
     ctx.exhaustive = not quick
     ctx.extra["l1_session_diffs"] = ndiff
     if ndiff and not ctx.violations:
